@@ -34,7 +34,7 @@ Named(f) == \E j \in 1..Len(f.named) : f.named[j] = 1
 
 Arg(t, vals) == [t |-> t, vals |-> vals]
 OvAt == <<<<3, 1>>, <<2, 1>>>>          \* override: log, 3 decades, offset 2
-OvAtLin == <<<<0, 1>>, <<0, 1>>>>       \* override: linear
+OvAtLin == <<<<0, 1>>, <<10, 1>>>>      \* override: linear (zero decades; the second number plays no role)
 OvAg == <<5, 2>>
 OvRes == <<512, 1>>             \* settings are tuples throughout (TLC cannot compare 512 with <<>>)
 ArgShapes(f, ov, alt) ==
